@@ -146,7 +146,22 @@ def fresh(name, sort):
     return z3.Const('%s!%d' % (name, _fresh_n[0]), sort)
 
 
+_isq_cache = {}
+
+
 def is_quantified(t):
+    k = t.get_id()
+    r = _isq_cache.get(k)
+    if r is None:
+        r = _is_quantified(t)
+        if len(_isq_cache) > 200000:
+            _isq_cache.clear()
+        _isq_cache[k] = (r, t)      # keep t alive so the id is not reused
+        return r
+    return r[0]
+
+
+def _is_quantified(t):
     seen = set()
     stack = [t]
     while stack:
@@ -271,7 +286,7 @@ def _has_var(x):
     return False
 
 
-def refine(hyps, goal, timeout_ms=8000, seed=0, rounds=12, max_inst=6000):
+def refine(hyps, goal, timeout_ms=8000, seed=0, rounds=12, max_inst=6000, budget_s=25):
     """Counter-model search by model-guided instantiation of the universally quantified hypotheses over the ground
     terms of the query.  `unsat` of the instantiated set is a proof (instances are consequences); a `sat` whose
     model satisfies every instance over its own ground universe is a counter-model, exact when all quantified
@@ -299,6 +314,8 @@ def refine(hyps, goal, timeout_ms=8000, seed=0, rounds=12, max_inst=6000):
     status = 'undecided'
     model = None
     for rnd in range(rounds):
+        if time.time() - t0 > budget_s:
+            break
         s = _mk_solver(timeout_ms, seed)
         s.add(*ground)
         s.add(*insts)
@@ -316,6 +333,9 @@ def refine(hyps, goal, timeout_ms=8000, seed=0, rounds=12, max_inst=6000):
         new = 0
         for q in qs:
             n = q.num_vars()
+            if is_quantified(q.body()):
+                exact = False
+                continue
             cands = []
             ok = True
             for i in range(n):
@@ -344,8 +364,6 @@ def refine(hyps, goal, timeout_ms=8000, seed=0, rounds=12, max_inst=6000):
                 cands = [cnd[:max(1, int(max_inst ** (1.0 / n)))] for cnd in cands]
             for combo in itertools.product(*cands):
                 inst = z3.substitute_vars(q.body(), *reversed(combo))
-                if is_quantified(inst):
-                    continue
                 try:
                     val = model.eval(inst, model_completion=True)
                 except z3.Z3Exception:
@@ -365,12 +383,12 @@ def refine(hyps, goal, timeout_ms=8000, seed=0, rounds=12, max_inst=6000):
     return out
 
 
-def prove(hyps, goal, timeout_ms=10000, seed=0, use_cvc5=True, both=False):
+def prove(hyps, goal, timeout_ms=10000, seed=0, use_cvc5=True, both=False, quick_only=False):
     """Validity of hyps => goal.  Returns dict(status=proved|refuted|undecided, backend, time_s, model?).
     Stage 1: z3 with E-matching only (patterns are given by the generator).  Stage 2: model-guided instantiation
     (proves, or yields a counter-model).  Stage 3: cvc5, then z3 with MBQI and a larger budget."""
     t0 = time.time()
-    s = _mk_solver(timeout_ms, seed)
+    s = _mk_solver(min(timeout_ms, 4000) if not both else timeout_ms, seed)
     s.set('smt.mbqi', False)
     for a in axioms():
         s.add(a)
@@ -391,13 +409,17 @@ def prove(hyps, goal, timeout_ms=10000, seed=0, use_cvc5=True, both=False):
         out['model'] = s.model()
         out['exact'] = True
         return out
-    r2 = refine(hyps, goal, seed=seed)
+    if quick_only:
+        out['status'] = 'undecided'
+        out['reason'] = 'budget exhausted: the function already has failing obligations'
+        return out
+    r2 = refine(hyps, goal, seed=seed, budget_s=max(10, timeout_ms / 400))
     SOLVER_STATS['z3_s'] += r2['time_s']
     if r2['status'] in ('proved', 'refuted'):
         r2['time_s'] = round(time.time() - t0, 4)
         return r2
     if use_cvc5 and os.path.exists(CVC5):
-        r3 = run_cvc5(s.to_smt2().replace('(check-sat)', ''), 60)
+        r3 = run_cvc5(s.to_smt2().replace('(check-sat)', ''), max(10, timeout_ms // 500))
         if r3 == 'unsat':
             out.update(status='proved', backend='cvc5', time_s=round(time.time() - t0, 4))
             return out
@@ -405,7 +427,7 @@ def prove(hyps, goal, timeout_ms=10000, seed=0, use_cvc5=True, both=False):
             out.update(status='refuted', backend='cvc5', time_s=round(time.time() - t0, 4), model=None, exact=True)
             return out
     t1 = time.time()
-    s2 = _mk_solver(timeout_ms * 6, seed + 1)
+    s2 = _mk_solver(timeout_ms * 2, seed + 1)
     for a in axioms():
         s2.add(a)
     s2.add(*hyps)
